@@ -117,6 +117,10 @@ def weights(rng, n, kind):
         w = [float(rng.random() < 0.6) for _ in range(n)]
     elif kind == "frac":
         w = [rng.choice([0.0, 0.1, 0.9, 1.0, 0.5]) for _ in range(n)]
+    elif kind == "tiny":      # a few small positive weights, total at most 1
+        w = [0.0] * n
+        for j in rng.sample(range(n), rng.randint(2, min(4, n))):
+            w[j] = rng.choice([0.125, 0.25, 0.0625])
     else:  # long zero runs at start / end / interior
         w = [1.0] * n
         L = rng.randint(1, n - 2)
@@ -153,7 +157,7 @@ def gen_cases(tier, seed):
     # exact leg: small and medium n, all weight kinds
     for _ in range(60 if quick else 500):
         n = rng.choice([4, 4, 5, 5, 6, 7, 8, 9, 12, 16, 24] + ([] if quick else [32, 48, 64]))
-        kind = rng.choice(["ones", "rand01", "frac", "lead", "trail", "mid"])
+        kind = rng.choice(["ones", "rand01", "frac", "lead", "trail", "mid", "tiny"])
         lam = rng.choice([Fraction(1, 2), Fraction(10) ** rng.choice(lam_exps[:8]), Fraction(rng.randint(1, 999), rng.choice([1, 7, 1000]))])
         y = [Fraction(rng.randint(-10000, 10000), rng.choice([1, 1, 3])) for _ in range(n)]
         w = [Fraction(v).limit_denominator(10) for v in weights(rng, n, kind)]
@@ -162,7 +166,7 @@ def gen_cases(tier, seed):
     sizes = [4, 5, 6, 7, 8, 10, 16, 24, 32, 48] if quick else [4, 5, 6, 7, 8, 10, 16, 24, 32, 48, 64, 96, 128]
     for _ in range(240 if quick else 2500):
         n = rng.choice(sizes)
-        kind = rng.choice(["ones", "rand01", "frac", "lead", "trail", "mid"])
+        kind = rng.choice(["ones", "rand01", "frac", "lead", "trail", "mid", "tiny"])
         lam = 10.0 ** rng.choice(lam_exps) * rng.choice([1.0, 1.0, rng.uniform(1, 10)])
         lam = min(max(lam, 1e-6), 1e8)
         add({"op": "float", "y": [fl(v) for v in data(n)], "w": [fl(v) for v in weights(rng, n, kind)], "lam": fl(lam), "wkind": kind})
@@ -219,12 +223,12 @@ def binding_demo(rep, cases):
 
 
 def m_stiff(trace, clause):
-    """known finding C01-F1: stiff lambda, positive weights confined to <= n/4 of the series"""
+    """known finding C01-F1: lambda / largest weight >= 1e6, positive weights confined to <= n/2 of the series"""
     if clause != "Float64Within1e-6" or trace.get("op") != "float":
         return False
     w = [Fraction(s) for s in trace["w"]]
     pos = [i for i, v in enumerate(w) if v > 0]
-    return Fraction(trace["lam"]) >= 10**6 and (pos[-1] - pos[0] + 1) * 4 <= len(w)
+    return Fraction(trace["lam"]) >= 10**6 * max(w) and (pos[-1] - pos[0] + 1) * 2 <= len(w)
 
 
 def run(tier, seed):
